@@ -2,3 +2,7 @@ import TinsModel.Props.C03
 #print axioms Tins.Props.C03.be_field_roundtrip
 #print axioms Tins.Props.C03.le_field_roundtrip
 #print axioms Tins.Props.C03.l2_whole_packet_c03
+#print axioms Tins.Props.C03.whole_packet_c03
+#print axioms Tins.Props.C03.whole_packet_c03_net
+#print axioms Tins.Props.C03.parsed_packet_representable
+#print axioms Tins.Props.C03.whole_packet_pad_le
